@@ -460,7 +460,7 @@ func checkC02(c *mc.Ctx) {
 	c02Continuous(c)
 	c02CounterWrap(c)
 	c02Merges(c)
-	c.Ev.Require("early-psi-position-checked", "flush-at-eof", "one-byte-first-chunk", "multi-pid-merge", "eight-pids-eof-drain", "continuous-sections-without-straddle", "continuous-sections-with-stuffed-packet", "unit-repeated-after-counter-wrap", "section-straddles-unit-start", "unit-behind-a-larger-unit")
+	c.Ev.Require("early-psi-position-checked", "flush-at-eof", "one-byte-first-chunk", "multi-pid-merge", "eight-pids-eof-drain", "continuous-sections-without-straddle", "continuous-sections-with-stuffed-packet", "section-tail-of-ff-bytes", "unit-repeated-after-counter-wrap", "section-straddles-unit-start", "unit-behind-a-larger-unit")
 }
 
 // c02Merges: several PIDs, all order-preserving merges; 8 PIDs sequential (EOF drain).
